@@ -88,9 +88,31 @@ pub fn run_case(ctx: &mut Ctx, c: &Case) -> Result<(), String> {
             }
             return Err(format!("{desc}: the call did not return (the server is {})", match s.server_stopped() { Some(e) => format!("stopped: {e}"), None => "still serving".into() }));
         }
+        // the connection stays usable: unless the server gave up (daemon policy: any request error ends the connection),
+        // the next reply-bearing call gets *its* reply — a failure encoding that leaves bytes behind, or an answer nobody
+        // consumed, would put every later call out of step
+        let mut follow_up = |s: &mut Session, ctx: &mut Ctx| -> Result<(), String> {
+            s.wait_idle();
+            if s.server_stopped().is_some() {
+                ctx.class("server_stopped_after_target");
+                return Ok(());
+            }
+            let (r2, _l, hung2) = s.call(&FeOp::GetMaxMemSlots, make_lent(&FeOp::GetMaxMemSlots));
+            s.sent += 1;
+            ctx.class("follow_up_call_after_target");
+            if hung2 {
+                return Err(format!("{desc}: afterwards, with the server still serving, get_max_mem_slots() did not return"));
+            }
+            match r2 {
+                Ok(Ret::U64(32)) => Ok(()),
+                // the server may have stopped between the check and the call
+                Err(_) if s.server_stopped().is_some() => Ok(()),
+                other => Err(format!("{desc}: afterwards, with the server still serving, get_max_mem_slots() returned {other:?} instead of the handler's 32 (the stream is out of step)")),
+            }
+        };
         if !has_reply && !acked {
             ctx.class("no_answer_awaited_only_checked_not_to_hang");
-            return Ok(());
+            return follow_up(&mut s, ctx);
         }
         let log = s.rec.lock().unwrap().log[before..].to_vec();
         let returned = s.rec.lock().unwrap().returned.get(before).cloned().flatten();
@@ -99,7 +121,7 @@ pub fn run_case(ctx: &mut Ctx, c: &Case) -> Result<(), String> {
         }
         if !good {
             return match r {
-                Err(_) => Ok(()),
+                Err(_) => follow_up(&mut s, ctx),
                 Ok(v) => Err(format!("{desc}: the handler failed or produced an unusable result but the call returned Ok({v:?})")),
             };
         }
@@ -119,7 +141,7 @@ pub fn run_case(ctx: &mut Ctx, c: &Case) -> Result<(), String> {
             _ => Ret::Unit,
         };
         match r {
-            Ok(v) if v == want => Ok(()),
+            Ok(v) if v == want => follow_up(&mut s, ctx),
             Ok(v) => Err(format!("{desc}: the call returned {v:?}, the handler produced {want:?}")),
             Err(e) => Err(format!("{desc}: the handler succeeded with {want:?} but the call returned Err({e})")),
         }
@@ -184,6 +206,13 @@ pub fn run(ctx: &mut Ctx) {
         n.query_queue_num = false;
         n
     });
-    let strat = (neg, proptest::collection::vec(op_strategy(), 0..5), target_strategy(), outcome_strategy()).prop_map(|(neg, prefix, op, outcome)| Case { neg, prefix, op, outcome });
+    // one case in six reads the configuration space with a handler result of a related length (the in-band failure
+    // encoding: wrong-length results must be reported and must not leave the stream out of step)
+    let cfg = (crate::gen::config_window(), 0u32..4, prop_oneof![Just(0i32), Just(-1), Just(1), Just(-4), Just(8), -64i32..64], any::<u8>()).prop_map(|((off, size), flags, d, seed)| {
+        let n = (size as i64 + d as i64).clamp(0, 4096) as usize;
+        (FeOp::GetConfig { off, size, flags }, Outcome { bytes: Some((0..n).map(|i| seed.wrapping_add(i as u8)).collect()), ..Default::default() })
+    });
+    let target = prop_oneof![5 => (target_strategy(), outcome_strategy()), 1 => cfg];
+    let strat = (neg, proptest::collection::vec(op_strategy(), 0..5), target).prop_map(|(neg, prefix, (op, outcome))| Case { neg, prefix, op, outcome });
     ctx.prop_check("outcomes", n, strat, |ctx, c| run_case(ctx, c));
 }
